@@ -30,6 +30,9 @@ structure St where
   pat : Option Bytes := none
   /-- suffix array of the last `sa` line -/
   sa : Option (Array Nat) := none
+  /-- the builder line answered last (its tokens) and what the builder returned: `buildp X` right
+  after `build X` asks for the same pure function of the same state (reset by `begin` / `sa`) -/
+  memo : Option (List String × Except Err Patch) := none
 
 /-! big byte strings in responses: length + FNV-1a 64 -/
 
@@ -120,6 +123,22 @@ def buildB (st : St) (r : Except Err Patch) : St × String :=
 def saTok (st : St) (t : String) : Option (Array Nat) :=
   if t == "@sa" then st.sa else parseSa t
 
+/-- the builder named by the tokens after `build` / `buildp`: (its tokens, the call, the rest of the line). -/
+def builderOf (st : St) : List String → Option (List String × (Unit → Except Err Patch) × List String)
+  | "simple" :: rest => some (["simple"], fun _ => simple st.new, rest)
+  | "chunked" :: blk :: rest => blk.toNat?.map fun b => (["chunked", blk], fun _ => chunked b st.old st.new, rest)
+  | "suffix" :: sa :: rest => (saTok st sa).map fun a => (["suffix", sa], fun _ => suffix a st.old st.new, rest)
+  | "suffixb" :: blk :: sa :: rest =>
+    match blk.toNat?, saTok st sa with
+    | some b, some a => some (["suffixb", blk, sa], fun _ => suffixBlk b a st.old st.new, rest)
+    | _, _ => none
+  | _ => none
+
+def built (st : St) (key : List String) (f : Unit → Except Err Patch) : Except Err Patch :=
+  match st.memo with
+  | some (k, r) => if k == key then r else f ()
+  | none => f ()
+
 def applyP (t : List (Bytes × Option Bytes)) (buf : Option Nat) (old p : Bytes) : String :=
   let z := zOfDecompress t
   match splitPatch p with
@@ -144,21 +163,23 @@ def handle (st : St) : List String → St × String
     | _, _ => (st, "bad-op")
   | ["sa", sa] =>
     match parseSa sa with
-    | some sa => ({ st with sa := some sa }, "ok")
+    | some sa => ({ st with sa := some sa, memo := none }, "ok")
     | none => (st, "bad-op")
-  | ["build", "simple"] => buildB st (simple st.new)
-  | ["build", "chunked", blk] =>
-    match blk.toNat? with
-    | some b => buildB st (chunked b st.old st.new)
+  | "build" :: rest =>
+    match builderOf st rest with
+    | some (key, f, []) =>
+      let r := built st key f
+      buildB { st with memo := some (key, r) } r
+    | _ => (st, "bad-op")
+  | "buildp" :: rest =>
+    match builderOf st rest with
+    | some (key, f, tbl) =>
+      match parsePairs st tbl with
+      | some t =>
+        let r := built st key f
+        buildP { st with memo := some (key, r) } t r
+      | none => (st, "bad-op")
     | none => (st, "bad-op")
-  | ["build", "suffix", sa] =>
-    match saTok st sa with
-    | some sa => buildB st (suffix sa st.old st.new)
-    | none => (st, "bad-op")
-  | ["build", "suffixb", blk, sa] =>
-    match blk.toNat?, saTok st sa with
-    | some b, some sa => buildB st (suffixBlk b sa st.old st.new)
-    | _, _ => (st, "bad-op")
   | ["apply", "mem", c, d, e, out] =>
     match parseB st c, parseB st d, parseB st e, out.toNat? with
     | some c, some d, some e, some out => (st, applyText (applyBytes none st.old c d e out))
@@ -185,22 +206,6 @@ def handle (st : St) : List String → St × String
     | some b, some c, some d, some e, some out =>
       (st, pErrText (applyBytesSrc ⟨st.old, fun _ => 1, false⟩ b c d e out))
     | _, _, _, _, _ => (st, "bad-op")
-  | "buildp" :: "simple" :: rest =>
-    match parsePairs st rest with
-    | some t => buildP st t (simple st.new)
-    | none => (st, "bad-op")
-  | "buildp" :: "chunked" :: blk :: rest =>
-    match blk.toNat?, parsePairs st rest with
-    | some b, some t => buildP st t (chunked b st.old st.new)
-    | _, _ => (st, "bad-op")
-  | "buildp" :: "suffix" :: sa :: rest =>
-    match saTok st sa, parsePairs st rest with
-    | some sa, some t => buildP st t (suffix sa st.old st.new)
-    | _, _ => (st, "bad-op")
-  | "buildp" :: "suffixb" :: blk :: sa :: rest =>
-    match blk.toNat?, saTok st sa, parsePairs st rest with
-    | some b, some sa, some t => buildP st t (suffixBlk b sa st.old st.new)
-    | _, _, _ => (st, "bad-op")
   | "applyp" :: "mem" :: p :: rest =>
     match parseB st p, parsePairs st rest with
     | some p, some t => (st, applyP t none st.old p)
